@@ -210,10 +210,13 @@ func (d *driver) runOnce(seed uint64, tape *Tape, replay bool) *Run {
 	r := newRun(d.cfg.Prop, seed, tape, d.known)
 	r.Replay = replay
 	Tick()
-	if !d.cfg.NoCrypto {
-		cryptotest.SetGlobalRandom(d.t, seed)
+	r.reseed = func(sd uint64) {
+		if !d.cfg.NoCrypto {
+			cryptotest.SetGlobalRandom(d.t, sd)
+		}
+		rand.Seed(int64(sd & 0x7fffffffffffffff))
 	}
-	rand.Seed(int64(seed & 0x7fffffffffffffff))
+	r.reseed(seed)
 	body := func() {
 		defer func() {
 			if p := recover(); p != nil {
